@@ -65,6 +65,11 @@ macro_rules! dual_checks {
         // different raw hashes give different duals
         let od = must("from_raw_form", || <$dual>::from_raw_form(&oraw))?;
         ensure_eq!(od == first, other == h, "{}: equality of duals vs equality of raw hashes [{} / {}]", stringify!($dual), text, other.text());
+        ensure_eq!(first == od, other == h, "{}: equality of duals (operands swapped) vs equality of raw hashes [{} / {}]", stringify!($dual), text, other.text());
+        ensure_eq!(od != first, other != h, "{}: != of duals vs raw hashes [{} / {}]", stringify!($dual), text, other.text());
+        if other.collapsed() == h.collapsed() && other != h {
+            $st.class("partner_shares_normalised_part");
+        }
         ensure_eq!(od.cmp(&first) == Ordering::Equal, other == h, "{}: cmp == Equal vs equality of raw hashes [{} / {}]", stringify!($dual), text, other.text());
         // clearing the reverse-normalisation data
         let mut cleared = first;
@@ -236,6 +241,31 @@ pub fn strategy() -> impl Strategy<Value = Case> {
         .prop_map(|(h, other, same)| {
             let other = if same { h.clone() } else { other };
             Case { h, other }
+        })
+        .prop_flat_map(|c| {
+            // a third of the partners share the normalised part with h (stretched or collapsed runs)
+            (Just(c), 0u8..6, any::<u16>(), 1u8..5).prop_map(|(mut c, mode, at, n)| {
+                match mode {
+                    0 => c.other = c.h.collapsed(),
+                    1 => {
+                        let mut o = c.h.clone();
+                        let second = at & 1 == 1;
+                        let (bh, cap) = if second { (&mut o.bh2, 32usize) } else { (&mut o.bh1, 64usize) };
+                        if !bh.is_empty() {
+                            let p = crate::engine::pick_index(at, bh.len());
+                            let s = bh[p];
+                            for _ in 0..n {
+                                if bh.len() < cap {
+                                    bh.insert(p, s);
+                                }
+                            }
+                        }
+                        c.other = o;
+                    }
+                    _ => {}
+                }
+                c
+            })
         })
 }
 
